@@ -285,7 +285,7 @@ Proof. reflexivity. Qed.
 
 Lemma shows_account_plain cfg a : bc_mapping cfg = [] -> bc_remap cfg = [] -> shows_account cfg a.
 Proof.
-  intros Hm Hr b _. exists b. rewrite Hm, Hr. unfold remap. rewrite rxs_match_nil. split; reflexivity.
+  intros Hm Hr b _. rewrite Hm, Hr. unfold remap. rewrite rxs_match_nil. reflexivity.
 Qed.
 
 (* the column indicator of a dated posting *)
@@ -309,10 +309,13 @@ Proof.
   assert (Hwe : (match bc_accounts cfg with [] => true | rs => rxs_match rs (acc_name (p_acc p)) end
                 && match bc_commodities cfg with [] => true | rs => rxs_match rs (p_com p) end)
                 = cfg_where cfg (p_acc p) (p_com p)) by reflexivity.
-  rewrite Hwe. destruct (Hsh _ Hp) as (b' & -> & Eb).
-  unfold Date.align. rewrite align_list_column_for. rewrite Eb.
+  rewrite Hwe. specialize (Hsh _ Hp).
+  unfold Date.align. rewrite align_list_column_for.
+  assert (Hgen : forall (x : Q) (b1 b2 : bool), (if b1 then (if b2 then x else 0) else 0) == (if b2 then (if b1 then x else 0) else 0))
+    by (intros x [] []; reflexivity).
   destruct (acc_eqb (p_acc p) a) eqn:Ea.
-  - apply acc_eqb_name in Ea. apply acc_name_inj in Ea; [|assumption|assumption].
+  - destruct (shorten (bc_mapping cfg) (remap (bc_remap cfg) (p_acc p))) as [b'| |]; try discriminate. rewrite Hsh.
+    apply acc_eqb_name in Ea. apply acc_name_inj in Ea; [|assumption|assumption].
     destruct (str_eqb (p_com p) c) eqn:Ec.
     + apply str_eqb_eq in Ec. rewrite Ea, Ec, Hw. cbn [andb].
       destruct (column_for (periods part) d) as [e|]; unfold rkey_eqb; cbn [fst snd oz_eqb ocom_eqb].
@@ -321,7 +324,15 @@ Proof.
     + cbn [andb]. assert (Hk : rkey_eqb (column_for (periods part) d, Some (p_com p)) (Some col, Some c) = false).
       { unfold rkey_eqb. cbn [fst snd ocom_eqb]. rewrite Ec. apply andb_false_r. }
       rewrite Hk. destruct (cfg_where cfg (p_acc p) (p_com p)), (in_col (periods part) col d); unfold in_col; destruct (column_for (periods part) d); try destruct (_ =? _)%Z; ring.
-  - cbn [andb]. destruct (cfg_where cfg (p_acc p) (p_com p)); destruct (column_for (periods part) d); try destruct (_ =? _)%Z; ring.
+  - cbn [andb].
+    assert (Hz : (if cfg_where cfg (p_acc p) (p_com p)
+                  then match shorten (bc_mapping cfg) (remap (bc_remap cfg) (p_acc p)) with
+                       | ShAcc a' => if acc_eqb a' a then if rkey_eqb (column_for (periods part) d, Some (p_com p)) (Some col, Some c) then 1 else 0 else 0
+                       | _ => 0 end
+                  else 0) == 0).
+    { destruct (cfg_where cfg (p_acc p) (p_com p)); [|reflexivity].
+      destruct (shorten (bc_mapping cfg) (remap (bc_remap cfg) (p_acc p))) as [b'| |]; try reflexivity. rewrite Hsh. reflexivity. }
+    rewrite Hz. destruct (column_for (periods part) d); try destruct (_ =? _)%Z; ring.
 Qed.
 
 (* ------------------------------------------------------------ Part D: assembly *)
